@@ -256,7 +256,8 @@ def main():
                 r = ["bad-event"]
         except BaseException as e:  # noqa
             r = ["harness-error", type(e).__name__, str(e)[:200]]
-        cfg = sorted([key, conn_id(v) if key == "sqlframe.conn" else str(v)] for key, v in sqlframe.ACTIVATE_CONFIG.items())
+        cfg = sorted([str(key), conn_id(v) if isinstance(v, Conn) else (v if isinstance(v, str) else type(v).__name__)]
+                     for key, v in sqlframe.ACTIVATE_CONFIG.items())
         out.append({"r": r, "cfg": cfg})
     print("C20OBS " + json.dumps({"pre": pre, "obs": out}))
 
